@@ -1,6 +1,6 @@
 (* C06: node ids are never handed out twice.  Built on the tree meaning (TreeProofs) and the
    persistence machine (DirtyProofs). *)
-From Coq Require Import List NArith ZArith Bool String Lia.
+From Coq Require Import List NArith ZArith Bool String Lia Sorted.
 From PMS Require Import Base.PyStr Base.PyInt Base.Exn Model.Codec Model.Rules Model.TableTypes
   Gen.Tables Model.Validate Model.Hex Model.Ota Model.Oracles Model.Gateway Spec.SerialApi
   Proofs.PyStrFacts Proofs.PyIntFacts Proofs.CodecProofs Proofs.ValidateProofs Proofs.GwLemmas Proofs.GwInv
@@ -309,7 +309,7 @@ Section IdsHistory.
       destruct (internal_member_ok g _ H) as [z Ez] end.
     pose proof (decoded_payload_wire_ok _ _ D) as W.
     exists m. eexists. eexists. split; [reflexivity|].
-    split; [destruct CI as [T _]; unfold gvalidate, tab; rewrite T; exact V|]. split; [reflexivity|].
+    split; [destruct CI as [T _]; unfold gvalidate, tab; rewrite T; exact V|]. split; [exact IR|].
     unfold handle_id_request. rewrite (next_id_spec g (max_node_cfg v g CI)), L, zhas_add_sensor. cbn [negb].
     rewrite Ez. cbn [bind]. rewrite (copy_spec _ _ W). cbn [bind]. split; reflexivity.
   Qed.
@@ -352,7 +352,7 @@ Section IdsHistory.
       destruct (pstep_inv orc clock v cf (g, d) o CI PE O' (IInv_PInv v cf _ PE H)) as (_ & _ & S'). exact S'. }
     destruct o as [o| |]; cbn [pstep fst snd id_of_pstep] in *.
     - destruct (step_ok orc clock g o (cfg_is_ok _ _ CI') I O) as [I1 C1].
-      split; [split; [congruence|]; split; [exact I1|]; split; [eapply step_keys_in_range; eassumption|exact SY]|].
+      split; [split; [cbn [fst]; congruence|]; split; [exact I1|]; split; [eapply step_keys_in_range; eassumption|exact SY]|].
       split; [intros k K; eapply step_keys_monotone; eassumption|].
       intros n N. pose proof (step_tree orc clock v g o CI' I O) as T.
       destruct (line_run g o) as [l|]; [|discriminate N].
@@ -417,6 +417,14 @@ Section IdsHistory.
     split; [exact ND|]. split; [exact SS|]. eapply Forall_impl; [|exact FA]. intros n [B _]. exact B.
   Qed.
 
+  Lemma prun_IInv v cf pops : cfg_is v cf -> Forall (pop_ok2 cf) pops -> forall s, IInv cf s ->
+    IInv cf (prun orc clock s pops).
+  Proof.
+    intros CI. induction pops as [|p r IH]; intros F0 s0 H0; [exact H0|].
+    inversion F0 as [|? ? Op Fr]; subst. unfold prun. cbn [fold_left]. apply IH; [exact Fr|].
+    exact (proj1 (ipstep v cf s0 p CI Op H0)).
+  Qed.
+
   (* per step, in every reachable state of the persistence machine *)
   Theorem id_fresh_in_history v cf pops o n : cfg_is v cf -> Forall (pop_ok2 cf) pops -> pop_ok2 cf o ->
     let s := prun orc clock (gw_init cf, None) pops in
@@ -426,11 +434,7 @@ Section IdsHistory.
     zhas n (g_sensors (fst (pstep orc clock s o))) = true.
   Proof.
     intros CI F O s N.
-    assert (H : IInv cf s).
-    { subst s. revert F. generalize (IInv_init cf). generalize (gw_init cf, @None tree).
-      induction pops as [|p r IH]; intros s0 H0 F0; [exact H0|].
-      inversion F0; subst. unfold prun. cbn [fold_left]. apply IH; [|assumption].
-      destruct (ipstep v cf s0 p CI) as (H1 & _); assumption. }
+    assert (H : IInv cf s) by (apply (prun_IInv v cf pops CI F), IInv_init).
     destruct (ipstep v cf s o CI O H) as (_ & _ & IDS). destruct (IDS n N) as (B & GT & IN).
     split; [exact B|]. split; [|split; assumption].
     destruct (zhas n (g_sensors (fst s))) eqn:Z; [|reflexivity]. specialize (GT _ Z). lia.
